@@ -42,6 +42,9 @@ CORPUS = {
     "indexed": [" LDA ,X+", " LDB [,--Y]", " LDD 5,U", " STD -129,S", " LDX [$1000]", "T LDA T,X"],
     "org.name": [" NAM prog", " ORG $0E00", "S NOP", " END S"],
     "two.orgs": [" ORG $100", " NOP", " ORG $200", " NOP"],
+    "inc.q": [" NOP", " INCLUDE shared.asm", "VALUE FCB 1"],
+    "inc.p": ["A NOP", "B NOP", "C BRA C", " INCLUDE shared.asm", "VALUE FCB 2", " LDA 5,X"],
+    "inc.r": ["TABLE EQU 5", " INCLUDE other.asm", " INCLUDE shared.asm", "VALUE EQU $1234"],
     "rej.mnemonic": [" FOO 1"],
     "rej.parse": ["failure_to_parse"],
     "rej.operand": [" LDA #"],
@@ -61,13 +64,21 @@ CORPUS = {
     "rej.end": [" END NOWHERE"],
     "rej.fit": [" LDA <$1234"],
 }
+INCLUDED = {"shared.asm": ["GETVAL LDA VALUE", " LDB VALUE+1", " LEAX VALUE,PCR", " RTS"], "other.asm": [" LDA TABLE,X", " LDA 5,X", "OTHER RTS"]}
 NAMES = sorted(CORPUS)
 HASHSEEDS = ["0", "1", "4242"]
 
 
 def observe(lines):
     """everything a user can observe from one assembly, as a JSON-able value"""
-    out = common.assemble([ln + "\n" for ln in lines], budget=20, raw=True)
+    if any("INCLUDE" in ln for ln in lines):
+        with common.scratch_dir():
+            for fn, content in INCLUDED.items():
+                with open(fn, "w") as f:
+                    f.write("".join(x + "\n" for x in content))
+            out = common.assemble([ln + "\n" for ln in lines], budget=20, raw=True)
+    else:
+        out = common.assemble([ln + "\n" for ln in lines], budget=20, raw=True)
     if out["kind"] == "OK":
         return ["OK", out["image"].hex(), out["listing"], [list(kv) for kv in sorted(out["symbols"].items())], out["origin"], out["name"]]
     if out["kind"] == "DIAG":
